@@ -187,6 +187,10 @@ def plan(tier, seed):
         p.append({'lang': 'java', 'n': 24, 'chunk': 12, 'switches': list(SWITCHES), 'tag': 'allsw',
                   'batch_sizes': [2, 12], 'batch_reps': 1})
         p.append({'lang': 'java', 'n': 48, 'chunk': 48, 'tag': 'bigbatch', 'batch_sizes': [120], 'batch_reps': 2})
+        # generated programs only (no mutation stages): cheap volume for translator / generator paths that
+        # about one program in a hundred takes
+        p.append({'lang': 'java', 'n': 208, 'chunk': 13, 'tag': 'genonly', 'transformations': 0, 'inject': False,
+                  'batch_sizes': [13], 'batch_reps': 1})
     else:
         for sw in switch_subsets():
             p.append({'lang': 'java', 'n': 60, 'chunk': 30, 'switches': sw,
@@ -195,6 +199,8 @@ def plan(tier, seed):
         p.append({'lang': 'java', 'n': 60, 'chunk': 30, 'max_depth': 7, 'batch_sizes': [10], 'batch_reps': 1})
         p.append({'lang': 'java', 'n': 60, 'chunk': 30, 'transformations': 3, 'tag': 't3',
                   'batch_sizes': [10], 'batch_reps': 1})
+        p.append({'lang': 'java', 'n': 1600, 'chunk': 50, 'tag': 'genonly', 'transformations': 0, 'inject': False,
+                  'batch_sizes': [50], 'batch_reps': 1})
     return p
 
 
